@@ -195,6 +195,30 @@ def wrapping_a_wrapper_is_isolated(S):
     S.ensure("set-default-on-wrapper-does-not-change-original", frame.diff(before, frame.snap(w1)) is None)
 
 
+@scenario("C13", [UF + ".__call__", UF + ".apply_to_batch"], configs=["batch=3"], bounded="batch size 3 (the loop is unrolled); values symbolic")
+def vectorised_call_binds_row_i_of_every_batched_argument_by_name(S):
+    """__call__(args, vectorize=True): the function is called once per row i with, BY NAME, row i of every argument that
+    has the batch length and the whole value of every shorter (constant) argument; the results are returned in order."""
+    from tpv.tlib import Tensor
+
+    # pre: every argument and default has a length (a plain number as default makes len() raise -- rejected, not mis-bound)
+    f = UserFn("f", ["x", "c", "k"], {"k": S.tensor("default_k", [1])})
+    w = S.new(UF, f)
+    X = S.tensor("X", [3, 2])
+    Cc = S.tensor("Cc", [1, 2])
+    out = S.method(w, "__call__", {"c": Cc, "x": X, "unused": S.tensor("U", [3, 1])}, True)
+    S.ensure("one-call-per-row", len(f.calls) == 3)
+    S.ensure("results-in-row-order", isinstance(out, list) and len(out) == 3)
+    for i, c in enumerate(f.calls[:3]):
+        b = c["bound"]
+        okx = isinstance(b.get("x"), Tensor) and b["x"].val.rank == 1
+        S.ensure(f"row-{i}-x-is-a-row", okx)
+        if okx:
+            S.forall(f"row-{i}-x-is-row-{i}-of-x", b["x"], lambda q, i=i, b=b: b["x"].val.at(q) == X.val.at([(i,), q[0]]))
+        S.ensure(f"row-{i}-constant-passed-whole", b.get("c") is Cc)
+        S.ensure(f"row-{i}-default-bound", b.get("k") is f.defaults["k"] and sorted(b) == ["c", "k", "x"])
+
+
 @scenario("C13", [DUF + ".__call__", DUF + ".evaluate_function"], configs=["callable", "callable-with-default", "tensor-const", "number-const"])
 def domain_user_function(S):
     """post: callable -> fun(**bound)[:, None] (one extra axis, rows kept); constants -> the constant as tensor"""
